@@ -25,8 +25,8 @@ pub fn def() -> CheckDef {
     CheckDef {
         id: "C14",
         level: "exploration",
-        runs_quick: 150_000,
-        runs_thorough: 3_000_000,
+        runs_quick: 800_000,
+        runs_thorough: 20_000_000,
         rule: "replica agreement between front ends of one mode, each replica under its own seeded schedule and width policy: buffered vs one-shot vs block-level CFB (both directions); OfbCore as encryptor / decryptor / keystream core / Ofb byte stream; CtrCore and BeltCtrCore block-wise vs the byte-level aliases; the six cts types on whole blocks vs cbc::Encryptor/Decryptor resp. the cipher's raw block calls; four ways of constructing every type. distinct = distinct (family, mode, block size, cipher, policies, schedules); non-trivial = >= 1 byte compared",
         required_probes: &["cfb_three_way", "ofb_four_way", "ctr_core_vs_alias", "belt_core_vs_alias", "cts_one_block", "cts_cs3_swap", "ctor_new", "ctor_slices", "ctor_inner_slice"],
         r#gen,
